@@ -2,10 +2,34 @@
 From Coq Require Import ZArith List Bool.
 From Cspuz Require Import Core.Expr Core.Program Puzzle.PuzzleBase Puzzle.SatAbs Puzzle.SatAbsProofs.
 
-(* Tier 2 evaluator, soundness: an answer accepted by sat_abs is the reading of a
-   genuine model (declared domains respected, every posted constraint holds) *)
-Theorem C11_sat_abs_sound : forall st kids order ans,
-  sat_abs st kids order ans = true ->
-  exists en, model_of no_graph en st /\ reads st en kids = ans.
-Proof. exact sat_abs_sound. Qed.
-Print Assumptions C11_sat_abs_sound.
+(* Tier 2 evaluator: sat_abs decides "some assignment of all variables respects
+   the declared domains, satisfies every posted constraint and reads as ans on
+   the answer variables" for every well-formed captured program *)
+Theorem C11_sat_abs_correct : forall st kids order ans,
+  wf_prog st kids = true ->
+  (sat_abs st kids order ans = true <->
+   exists en, model_of no_graph en st /\ reads st en kids = ans).
+Proof. exact sat_abs_correct. Qed.
+Print Assumptions C11_sat_abs_correct.
+
+(* what each generated, kernel-evaluated instance goal [tier2_ok ... = true] establishes:
+   on every candidate answer, the captured program of the real solve_<p> admits it
+   exactly when the rule specification does *)
+Theorem C11_tier2_ok_meaning : forall st kids order rules answers,
+  tier2_ok st kids order rules answers = true ->
+  forall ans, In ans answers ->
+    ((exists en, model_of no_graph en st /\ reads st en kids = ans) <-> rules ans = true).
+Proof. exact tier2_ok_meaning. Qed.
+Print Assumptions C11_tier2_ok_meaning.
+
+(* Tier 1, sudoku, every n: the program posted by solve_sudoku (model Puzzle/Sudoku.v,
+   tied to the Python by program capture) has a model reading as [ans] on the answer
+   grid exactly when [ans] obeys the published rules and keeps the given numbers *)
+From Cspuz Require Import Lib.PyErr Puzzle.Rules_sudoku Puzzle.Sudoku Puzzle.SudokuProofs.
+Theorem C11_sudoku_exact : forall n clues st ans,
+  solve_sudoku_model (List.cons (List.cons (Z.of_nat n) nil) (List.cons clues nil)) = Ok st ->
+  ((exists en, model_of no_graph en st /\
+               reads st en (seq 0 ((n * n) * (n * n))) = ans)
+   <-> rules_sudoku (List.cons (List.cons (Z.of_nat n) nil) (List.cons clues nil)) ans = true).
+Proof. exact sudoku_exact. Qed.
+Print Assumptions C11_sudoku_exact.
